@@ -320,6 +320,7 @@ impl<V, A: Ord> CmRDT for MVReg<V, A> {
     open spec fn cm_inv(&self) -> bool { actor_ok::<A>() && self.basic() }
     open spec fn cm_pre(&self, op: &Op<V, A>) -> bool { nz(op->clock@) }
     open spec fn cm_post(old_: &Self, op: &Op<V, A>, new_: &Self) -> bool { apply_post_mv(*old_, *op, *new_) }
+    open spec fn cm_vpre(&self, op: &Op<V, A>) -> bool { true }
 
 //@extract fn src/mvreg.rs "CmRDT for MVReg" validate_op
     fn validate_op(&self, _op: &Self::Op) -> /*@ (r: @*/ Result<(), Self::Validation> /*@ ) @*/
